@@ -61,6 +61,35 @@ def c12(ctx):
     ctx.extra["regex_counts"] = cnt
     ctx.extra["v8_oracle_exceptions"] = cnt.get("v8_oracle_exceptions", 0)
 
+    # ---- search for a failing input when the correspondence broke: the patterns of the mismatching cases are
+    # decided by the IMPLEMENTATION one per file and compared with V8
+    if r["mismatches"]:
+        pats = []
+        for m in r["mismatches"]:
+            for it in (m.get("case") or m.get("file") or []):
+                try:
+                    p0, f0 = it[0], it[1]
+                except Exception:
+                    continue
+                fl = ("u" if f0 else "") if isinstance(f0, bool) else f0
+                if isinstance(p0, str) and not R.has_surrogate(p0) and (fl is None or not R.has_surrogate(fl)):
+                    pats.append((p0, fl))
+        pats = sorted(set(pats), key=lambda x: (x[0], x[1] or ""))[:4000]
+        if pats:
+            decs = R.impl_rule([[it] for it in pats])
+            decisions = []
+            for it, d in zip(pats, decs):
+                d0 = d[0] if isinstance(d, (list, tuple)) and d and not isinstance(d[0], str) else d
+                if isinstance(d, tuple) and d and d[0] in ("crash", "panic", "parse_error", "odd_diag"):
+                    decisions.append((it, "panic" if d[0] in ("crash", "panic") else None))
+                else:
+                    decisions.append((it, bool(d0[0]) if isinstance(d0, (list, tuple)) else bool(d0)))
+            decisions = [x for x in decisions if x[1] is not None]
+            n2, classes2, unknown2, _ = R.compare_v8(decisions)
+            for u in unknown2[:5]:
+                ctx.violation("C12.v8:unclassified:search:" + u.get("signature", ""), "found while searching the mismatching cases: new RegExp(%s%s): rule %s, V8 expects %s" % (
+                    json.dumps(u["pattern"], ensure_ascii=False), "" if u["flags"] is None else ", " + json.dumps(u["flags"]), u["impl"], u["v8_expected"]),
+                    {"pattern": u["pattern"], "flags": u["flags"], "js": R.js_line(0, u["pattern"], u["flags"])})
     # ---- property-level failures
     for h in r["history"][:5]:
         ctx.violation("C12.history-dependent", "verdict of %r inside a sequence on one validator differs from its verdict alone: %s vs %s"
